@@ -60,6 +60,15 @@ pub fn verify_presentation(
         &credential_proofs,
     )?;
 
+    // the attribute values a credential shows must be exactly the values its sub-proof reveals
+    for (credential, credential_proof) in presentation
+        .verifiable_credential
+        .iter()
+        .zip(&credential_proofs)
+    {
+        verify_credential_subject(credential, &credential_proof.sub_proof)?;
+    }
+
     let presentation_proof = presentation.get_presentation_proof()?;
 
     let mut proof_verifier = CLProofVerifier::new(
@@ -96,6 +105,30 @@ pub fn verify_presentation(
     trace!("verify_w3c_presentation <<< valid: {:?}", valid);
 
     Ok(valid)
+}
+
+/// Every string or number in the credential subject must be the value the sub-proof reveals for
+/// that attribute, and every value the sub-proof reveals must be shown in the subject: values that
+/// are merely carried along are not covered by the proof.
+fn verify_credential_subject(credential: &W3CCredential, sub_proof: &SubProof) -> Result<()> {
+    let revealed = sub_proof.revealed_attrs()?;
+    for (attribute, value) in credential.credential_subject.0.iter() {
+        if let CredentialAttributeValue::Bool(_) = value {
+            continue;
+        }
+        let encoded = encode_credential_attribute(&value.to_string())?;
+        verify_revealed_attribute_value(attribute, sub_proof, &encoded)?;
+    }
+    for attribute in revealed.keys() {
+        credential.get_attribute(attribute).map_err(|_| {
+            err_msg!(
+                ProofRejected,
+                "Attribute \"{}\" is revealed by the proof but not shown in the credential",
+                attribute
+            )
+        })?;
+    }
+    Ok(())
 }
 
 fn check_credential_restrictions(
